@@ -920,6 +920,12 @@ def resolve_anchors(fnode, contract):
             nth = int(nth) if nth else 0
             if text == "return":
                 cands = [s for s in stmts if isinstance(s, ast.Return)]
+            elif text.startswith("assigns:"):
+                # semantic anchor: the simple statements that assign the local NAME (whatever the right-hand side says) - keeps a
+                # ghost snapshot in place when the expression it precedes is edited (round-3 seed C07-4)
+                name = text[len("assigns:"):].strip()
+                cands = [s for s in stmts if isinstance(s, (ast.Assign, ast.AnnAssign, ast.AugAssign))
+                         and any(isinstance(t, ast.Name) and t.id == name for t in (s.targets if isinstance(s, ast.Assign) else [s.target]))]
             else:
                 if text.rstrip().endswith(":"):
                     # header of a compound statement ("if c:", "while c:", "for x in y:"), matched like _head()
